@@ -196,6 +196,10 @@ def scenario(c, inst):
             c.check("c20.nfev_equals_completed_user_calls", a.nfev == rhs.completed, info=dict(nfev=a.nfev, counted=rhs.completed))
             if hasattr(rhs, "jac_calls"):
                 c.check("c20.njev_equals_jacobian_requests", a.njev == len(rhs.jac_calls), info=dict(njev=a.njev, counted=len(rhs.jac_calls)))
+                # detaching the Jacobian afterwards is not a request and forgets none
+                n_before = a.njev
+                st_u, r_u = run(a.equ_rhs.unhook_jacobian_call)
+                c.check("c20.njev_unchanged_by_unhook", st_u == "ok" and a.njev == n_before, info=dict(before=n_before, after=a.njev, st=st_u))
             c.check("c20.callbacks_once_per_recorded_step", len(seq) == 2 * (len(T) - 1), info=dict(calls=len(seq), rows=len(T)))
             order_ok = all(seq[i]["tag"] == ("A" if i % 2 == 0 else "B") for i in range(len(seq)))
             c.check("c20.callbacks_in_given_order", order_ok)
